@@ -25,7 +25,7 @@ from . import yamlmodel
 from .convsites import D_CALLEES, S_CALLEES, conversion_sites
 from .relang import DFA
 from .report import Ctx
-from .srcmodel import AnalysisError, call_leaf, call_name, calls_in, const_str, contains, dotted, func_params, get_kwarg, src, walk_local
+from .srcmodel import enclosing_function, AnalysisError, call_leaf, call_name, calls_in, const_str, contains, dotted, func_params, get_kwarg, src, walk_local
 from .util import guard_chain, root_name  # noqa
 
 # languages written by PyYAML's SafeRepresenter (read from yaml/representer.py; the
@@ -236,12 +236,60 @@ def run(ctx: Ctx) -> int:
             labels = [x.attr if isinstance(x, ast.Attribute) else x.value for x in names_]
             ok = bool(labels) and all("Safe" in l for l in labels)
             ctx.oblige("C01.a", ok, cd, f"{cd.name} derives from the safe yaml classes {labels}" if ok else f"{cd.name} derives from {labels}: not a Safe* class - values that are not plain yaml (tuples, enums) are written with python tags the loader rejects, or unsafe tags are accepted on load", fn=fn_)
-    # Namespace objects that reach the yaml dumper (class specs below two container levels, next to nulls) are written
-    # as mappings by a representer - registered on the Safe dumper class the library's dumper derives from
-    nsm = ctx.repo.mod("_namespace")
-    reps = [c for c in ast.walk(nsm.tree) if isinstance(c, ast.Call) and call_leaf(c) == "add_representer" and c.args and dotted(c.args[0]) == "Namespace"]
-    ok = bool(reps) and all(isinstance(c.func, ast.Attribute) and (dotted(c.func.value) or "").endswith("SafeDumper") for c in reps)
-    ctx.oblige("C01.a", ok, None, "the Namespace representer is registered on yaml.SafeDumper (the base of the library's dumper)" if ok else f"the Namespace representer is registered through `{ast.unparse(reps[0].func) if reps else '?'}`, not on the Safe dumper class: the library's dumper cannot write Namespace objects left inside containers (Dict[str, List[Cls]], List[Optional[Cls]]) - every yaml dump of such a configuration raises RepresenterError", site="_namespace:<module> :: add_representer(Namespace, ...)", construct="Namespace representer on SafeDumper", function="_namespace:<module>")
+    # (Namespace objects inside containers: converted at every depth by Namespace.as_dict since fix 3762e69 - decided by
+    #  C11.d; the yaml representer for Namespace in _namespace.py is no longer what dumps rely on, so no rule on it)
+
+    # the dump with comments re-reads the dumped yaml with a second yaml library (ruyaml, YAML 1.2) and writes it again:
+    # the quotes the library's dumper put around YAML 1.1 spellings ('yes', 'on', '1:30') survive only if the
+    # re-writer is told to keep them (fix e2640b7)
+    n_rw = 0
+    for fq, fn in ctx.repo.all_funcs():
+        insts = [s_ for s_ in walk_local(fn) if isinstance(s_, ast.Assign) and isinstance(s_.targets[0], ast.Name) and isinstance(s_.value, ast.Call) and call_leaf(s_.value) == "YAML"]
+        for inst in insts:
+            v = inst.targets[0].id
+            loads_rw = [c for c in calls_in(fn, include_nested=True) if call_leaf(c) == "load" and root_name(c.func) == v]
+            dumps_rw = [c for c in calls_in(fn, include_nested=True) if call_leaf(c) == "dump" and root_name(c.func) == v]
+            if not (loads_rw and dumps_rw):
+                continue
+            n_rw += 1
+            g_ = ctx.cfg(fn)
+            keeps = [s_ for s_ in walk_local(fn) if isinstance(s_, ast.Assign) and isinstance(s_.targets[0], ast.Attribute) and s_.targets[0].attr == "preserve_quotes" and root_name(s_.targets[0]) == v and isinstance(s_.value, ast.Constant) and s_.value.value is True]
+            top_loads = [c for c in loads_rw if enclosing_function(c) is fn]
+            ok = bool(keeps) and bool(top_loads) and g_.dominates(g_.cn(keeps), g_.cn(top_loads))
+            ctx.oblige("C01.a", ok, keeps[0] if keeps else loads_rw[0], f"`{v}` re-writes the dump with the quotes preserved" if ok else f"`{src(loads_rw[0], 40)}` re-reads the dump with a YAML 1.2 library that drops quotes: the strings 'yes', 'on', 'NO', '1:30' are written plain and the parser's own loader reads them back as booleans / numbers - the output of --print_config=comments is rejected or changed by the parser that wrote it", fn=fn, construct="comments re-writer keeps quotes")
+    ctx.floor("C01.a-yaml-rewriters", n_rw, 1)
+
+    # whatever is handed to a dumper went through the serialisation step first (_dump_cleanup_actions turns Enum, Path,
+    # registered-type ... values into their text): on every path to a dump_using_format call in the parser class -
+    # except for values that are not namespaces (plain dicts of json-schema / jsonnet arguments) - a
+    # _dump_cleanup_actions call on the namespace the dumped data is taken from comes first (fix 3c12df0: nested files
+    # of a multifile save skipped it, save raised RepresenterError for an accepted configuration)
+    from .util import strip_not as _sn
+
+    n_duf = 0
+    for fq, fn in ctx.repo.all_funcs():
+        if not fq.startswith("_core:ArgumentParser."):
+            continue
+        dufs = [c for c in calls_in(fn) if call_leaf(c) == "dump_using_format" and enclosing_function(c) is fn]
+        if not dufs:
+            continue
+        g_ = ctx.cfg(fn)
+        sers = [c for c in calls_in(fn) if call_leaf(c) == "_dump_cleanup_actions" and enclosing_function(c) is fn and c.args and isinstance(c.args[0], ast.Name)]
+        exempt = set()
+        for i_ in [x for x in walk_local(fn) if isinstance(x, ast.If)]:
+            t_, pos_ = _sn(i_.test)
+            if isinstance(t_, ast.Call) and call_leaf(t_) == "isinstance" and len(t_.args) == 2 and ast.unparse(t_.args[1]) == "Namespace":
+                exempt |= g_.branch_edges(i_.test, "f" if pos_ else "t")
+        for c in dufs:
+            n_duf += 1
+            data = c.args[1] if len(c.args) > 1 else None
+            dn = data.id if isinstance(data, ast.Name) else None
+            defs_ = [s_ for s_ in walk_local(fn) if isinstance(s_, ast.Assign) and any(isinstance(t, ast.Name) and t.id == dn for t in s_.targets)]
+            roots_ = {s_.args[0].id for s_ in sers}
+            linked = any(roots_ & {n_.id for n_ in ast.walk(d_.value) if isinstance(n_, ast.Name)} for d_ in defs_)
+            ok = bool(sers) and linked and g_.dominates(g_.cn(sers), g_.cn(c), removed_edges=exempt)
+            ctx.oblige("C01.f", ok, c, f"`{src(c, 50)}` writes data taken from a namespace that went through _dump_cleanup_actions" if ok else f"`{src(c, 60)}` can be reached with a namespace whose values were never serialised: an Enum, Path or registered-type value inside makes the yaml dumper raise RepresenterError (json: TypeError) - save(multifile=True) fails for a configuration the parser accepted", fn=fn, construct="dumped data is serialised")
+    ctx.floor("C01.f-dump-sites", n_duf, 2)
 
     # JSON text is recognised whatever whitespace surrounds it (files end with a newline)
     llod = ctx.func("_loaders_dumpers:load_list_or_dict")
@@ -339,23 +387,103 @@ def run(ctx: Ctx) -> int:
                 ctx.oblige("C01.f", ok, c, "nested parser.dump uses the published dump options" if ok else "nested parser.dump ignores the caller's dump options", fn=fn)
     ctx.floor("C01.f-nested-dumps", n_nd, 2)
 
-    # ---------------- C01.g: skip_default removes an entry only if it equals the default ---------
+    # ---------------- C01.g: skip_default removes only what parsing the dump puts back ---------------------------------
+    # (fixes dc6c9c4 / 7150d40)  In _dump_delete_default_entries(subcfg, subdefaults, ...):
+    #  (1) `del subcfg[key]` happens only under `<subcfg[key]> == <subdefaults[key]>` (whole values compared);
+    #  (2) entries INSIDE a dict value are removed (recursive call on self) only when the key is not a leaf argument -
+    #      the guard consults the action found for the key: a Dict-typed value is replaced as a whole when the dump is
+    #      parsed, so it has to be written as a whole;
+    #  (3) inside the init_args of a class spec the recursion runs on the parser of that class (its arguments decide
+    #      what a leaf is), and the spec's own entry is never deleted there (the class_path must survive);
+    #  (4) `.get` on the default happens only where the default is known to be a dict (a class given where the default
+    #      is None).
+    from .util import guard_atoms as _ga1
+
     dd = ctx.func("_core:ArgumentParser._dump_delete_default_entries")
+    dpar = [a_.arg for a_ in dd.args.args]
+    ctx.need(len(dpar) >= 3, "_dump_delete_default_entries(self, subcfg, subdefaults, ...)")
+    p_cfg, p_def = dpar[1], dpar[2]
+
+    def _reads(par):
+        return {s_.targets[0].id for s_ in walk_local(dd) if isinstance(s_, ast.Assign) and isinstance(s_.targets[0], ast.Name) and isinstance(s_.value, ast.Subscript) and root_name(s_.value) == par and not isinstance(s_.value.value, ast.Subscript)}
+
+    v_vals, v_defs = _reads(p_cfg), _reads(p_def)
+    ctx.need(len(v_vals) == 1 and len(v_defs) == 1, "_dump_delete_default_entries: val = subcfg[key]; default = subdefaults[key]")
+    v_val, v_def = next(iter(v_vals)), next(iter(v_defs))
+    acts_v = {s_.targets[0].id for s_ in walk_local(dd) if isinstance(s_, ast.Assign) and isinstance(s_.targets[0], ast.Name) and isinstance(s_.value, ast.Call) and call_leaf(s_.value) in ("_find_action", "_find_action_and_subcommand", "_find_parent_action")}
+    cls_parsers = {s_.targets[0].id for s_ in walk_local(dd) if isinstance(s_, ast.Assign) and isinstance(s_.targets[0], ast.Name) and isinstance(s_.value, ast.Call) and call_leaf(s_.value) == "get_class_parser"}
+
+    def _is_whole_eq(t):
+        return isinstance(t, ast.Compare) and len(t.ops) == 1 and isinstance(t.ops[0], ast.Eq) and {ast.unparse(t.left), ast.unparse(t.comparators[0])} == {v_val, v_def}
+
+    def _in_spec_arm(node):
+        return any(pol and isinstance(t, ast.Call) and call_leaf(t) == "is_subclass_spec" for t, pol in _ga1(node, stop=dd))
+
     n_del = 0
-    for s_ in walk_local(dd):
-        if isinstance(s_, ast.Delete):
-            n_del += 1
-            tgt = s_.targets[0]
-            gch = guard_chain(s_, stop=dd)
-            eq = [t for t, pol in gch if pol and any(isinstance(x, ast.Compare) and len(x.ops) == 1 and isinstance(x.ops[0], ast.Eq) for x in ast.walk(t))]
-            txt = " ".join(ast.unparse(t) for t in eq)
-            if root_name(tgt) == "subcfg":
-                ok = bool(eq) and "val == default" in txt
-                ctx.oblige("C01.g", ok, s_, "an entry is dropped by skip_default only when its value equals the default" if ok else "skip_default drops an entry without comparing it with the default: the dump no longer re-parses to the same configuration", fn=dd)
-            else:
-                ok = bool(eq) and "== {}" in txt
-                ctx.oblige("C01.g", ok, s_, "an emptied init_args entry is removed only when it is empty" if ok else "init_args removed from a class spec although not empty", fn=dd)
+    for s_ in [x for x in walk_local(dd) if isinstance(x, ast.Delete)]:
+        n_del += 1
+        tgt = s_.targets[0]
+        at = _ga1(s_, stop=dd)
+        if root_name(tgt) == p_cfg:
+            ok = any(pol and _is_whole_eq(t) for t, pol in at) and not _in_spec_arm(s_)
+            ctx.oblige("C01.g", ok, s_, "an entry is dropped by skip_default only when its whole value equals the default" if ok else f"`{src(s_, 40)}` drops an entry that is not equal to the default as a whole (or drops the entry of a class spec from inside its arm): a class whose class_path differs from the default but whose init_args equal that class's own defaults vanishes from the dump - it parses back to the default class", fn=dd)
+        else:
+            ok = any(pol and isinstance(t, ast.Compare) and isinstance(t.ops[0], ast.Eq) and isinstance(t.comparators[0], ast.Dict) and not t.comparators[0].keys for t, pol in at)
+            ctx.oblige("C01.g", ok, s_, "an emptied init_args entry is removed only when it is empty" if ok else "init_args removed from a class spec although not empty", fn=dd)
     ctx.floor("C01.g", n_del, 2)
+    recs = [c for c in calls_in(dd) if call_leaf(c) == "_dump_delete_default_entries"]
+    ctx.floor("C01.g-recursions", len(recs), 1)
+    for c in recs:
+        recv = root_name(c.func)
+        at = _ga1(c, stop=dd)
+        if _in_spec_arm(c):
+            ok = recv in cls_parsers
+            ctx.oblige("C01.g", ok, c, "the init_args of a class are reduced by the parser of that class" if ok else f"`{src(c, 60)}` reduces the init_args of a class with `{recv}`, which does not know the arguments of that class: entries of a Dict-typed init arg are removed one by one (opts={{'a': 1, 'b': 5}} is dumped as {{b: 5}}) and the dump parses back to a different value", fn=dd)
+        else:
+            consults = any(acts_v & {n_.id for n_ in ast.walk(t) if isinstance(n_, ast.Name)} for t, pol in at)
+            ok = recv == "self" and consults
+            ctx.oblige("C01.g", ok, c, "entries inside a dict value are removed only for keys that are not leaf arguments (groups, subcommands, nested parsers)" if ok else f"`{src(c, 60)}` removes entries inside ANY dict value: for a Dict[str, int] argument with default {{'a': 1, 'b': 2}} the value {{'a': 1, 'b': 3}} is dumped as `b: 3`, which parses back to {{'b': 3}} - the skip_default dump is not lossless", fn=dd)
+    for g_ in [c for c in calls_in(dd) if call_leaf(c) == "get" and root_name(c.func) == v_def]:
+        at = _ga1(g_, stop=dd)
+        par_ = getattr(g_, "_jv_parent", None)
+        while par_ is not None and not isinstance(par_, (ast.BoolOp, ast.stmt)):
+            par_ = getattr(par_, "_jv_parent", None)
+        in_or = isinstance(par_, ast.BoolOp) and isinstance(par_.op, ast.Or) and any(isinstance(v_, ast.UnaryOp) and isinstance(v_.operand, ast.Call) and call_leaf(v_.operand) == "isinstance" and ast.unparse(v_.operand.args[0]) == v_def for v_ in par_.values[:1])
+        in_and = isinstance(par_, ast.BoolOp) and isinstance(par_.op, ast.And) and any(isinstance(v_, ast.Call) and call_leaf(v_) == "isinstance" and ast.unparse(v_.args[0]) == v_def for v_ in par_.values[:-1])
+        redefs = [s_ for s_ in walk_local(dd) if isinstance(s_, ast.Assign) and isinstance(s_.targets[0], ast.Name) and s_.targets[0].id == v_def and isinstance(s_.value, ast.Dict)]
+        gd = ctx.cfg(dd)
+        after_dict = False
+        if redefs:
+            # the default was replaced by a dict literal on every path on which it was not a dict
+            tests_ = [i_ for i_ in walk_local(dd) if isinstance(i_, ast.If) and any(x is redefs[0] for x in i_.body) and f"isinstance({v_def}, dict)" in ast.unparse(i_.test)]
+            after_dict = bool(tests_) and gd.dominates(gd.cn(tests_[0].test), gd.cn(g_)) and not any(x is g_ for x in ast.walk(tests_[0].test))
+        guarded = any(pol and isinstance(t, ast.Call) and call_leaf(t) == "isinstance" and ast.unparse(t.args[0]) == v_def for t, pol in at)
+        ok = in_or or in_and or guarded or after_dict
+        ctx.oblige("C01.g", ok, g_, f"`{src(g_, 40)}` runs only where the default is a dict" if ok else f"`{src(g_, 40)}` is evaluated for a default that may be None: dump(skip_default=True, skip_none=False) of a class given for an Optional[...] argument whose default is None raises AttributeError", fn=dd)
+
+    # the steps dump applies to the parser's DEFAULTS (no subcommand is chosen in them) must not insist on a chosen
+    # subcommand: every get_subcommand(s) call inside a function that dump calls with the defaults passes
+    # fail_no_subcommand=False (fix 7150d40: every skip_default dump of a parser with a required subcommand raised)
+    dump_fn0 = ctx.func("_core:ArgumentParser.dump")
+    def_vars = {s_.targets[0].id for s_ in walk_local(dump_fn0) if isinstance(s_, ast.Assign) and isinstance(s_.targets[0], ast.Name) and isinstance(s_.value, ast.Call) and call_leaf(s_.value) == "get_defaults"}
+    ctx.need(def_vars, "dump: defaults = self.get_defaults(...)")
+    n_on_def = 0
+    for c in calls_in(dump_fn0):
+        if not any(isinstance(a_, ast.Name) and a_.id in def_vars for a_ in c.args):
+            continue
+        leaf = call_leaf(c)
+        for fq2, fn2 in ctx.repo.all_funcs():
+            if fq2.split(".")[-1].split(":")[-1] != leaf or fq2.startswith("_deprecated:"):
+                continue
+            for c2 in calls_in(fn2):
+                if call_leaf(c2) not in ("get_subcommands", "get_subcommand", "handle_subcommands"):
+                    continue
+                n_on_def += 1
+                kw_ = get_kwarg(c2, "fail_no_subcommand")
+                ok = isinstance(kw_, ast.Constant) and kw_.value is False
+                ctx.oblige("C01.g", ok, c2, f"{leaf} (applied to the defaults by dump) does not insist on a chosen subcommand" if ok else f"`{src(c2, 60)}` in {fq2} insists on a chosen subcommand, but dump(skip_default=True) applies {leaf} to the parser's defaults, where none is chosen: every skip_default dump of a parser with a required subcommand raises NSKeyError", fn=fn2)
+    ctx.floor("C01.g-steps-on-defaults", n_on_def, 1)
+
     # the defaults compared against went through the same clean-up as the dumped configuration
     dump_fn = ctx.func("_core:ArgumentParser.dump")
     gdump = ctx.cfg(dump_fn)
